@@ -1353,6 +1353,14 @@ fn derive_reprc_new(input: DeriveInput) -> TokenStream {
                             abort!(field_types[i].span(), "Removed fields must have a max version, provide one using #[savefile_versions=\"..N\"]")
                         }
                         min_safe_version = min_safe_version.max(verinfo.version_to + 1);
+                    } else if verinfo.version_to < std::u32::MAX {
+                        // The field still occupies memory, but is absent from the serialized form
+                        // of every version after 'version_to'.
+                        if opt_in_fast {
+                            abort!(field_types[i].span(), "The #[savefile_require_fast] attribute cannot be used when a field that is not Removed has a closed version range");
+                        } else {
+                            return implement_reprc_hardcoded_false(name.clone(), &input);
+                        }
                     }
                     let typ = field_types[i].to_token_stream();
 
